@@ -19,7 +19,7 @@ CHECKS = {
    note="trusted: simnet, synctest clock, seamgen overlay, echo actor; obfs4's 2-cut space and the pacing space are sampled; accept-loop glue re-implemented",
    tech=TECH + " (segmentation enumeration + seeded schedule/pacing search through the real station)"),
  "C05": dict(cat="fault_enumeration", ref="5 C05",
-   text="every single fault (connection end x operation kind x operation index < 6 x error shape, plus dial failures) over eight relay workloads is enumerated against the real Proxy/halfPipe under simulator-chosen I/O interleavings; pairs of faults and generated workloads are sampled (thorough: pairs enumerated for three workloads); an abortive close (SO_LINGER 0, modelled by the simulated connection through the tcpconn seam) that throws away accepted bytes is a byte-count violation",
+   text="every single fault (connection end x operation kind x operation index < 6 x error shape, plus dial failures) over eight relay workloads is enumerated against the real Proxy/halfPipe under simulator-chosen I/O interleavings; pairs of faults and generated workloads are sampled (thorough: pairs enumerated for three workloads); an abortive close (SO_LINGER 0, modelled by the simulated connection through the tcpconn seam) that throws away accepted bytes is a byte-count violation; when the relay directions ran, both connections must be closed at the instant Proxy returns",
    note="trusted: simnet's model of TCP errors (OpError/SyscallError shapes), the synctest fake clock, the seamgen overlay; interleavings are sampled, not enumerated",
    tech=TECH + " (fault enumeration + seeded schedule search over parked I/O operations)"),
  "C06": dict(cat="exploration", ref="5 C06",
@@ -35,11 +35,11 @@ CHECKS = {
    note="trusted: synctest fake clock; the reference model (30 lines) written from the property text; ages within 1 ms of a threshold are don't-cares; for a registration that is about to expire while a connection arrives either outcome of the race is accepted (removed entirely, or kept as used)",
    tech=TECH + " (simulated clock, history enumeration + seeded search, reference model)"),
  "C14": dict(cat="exploration", ref="5 C14",
-   text="purity under schedules: 2-32 concurrent Select / SelectPhantom calls on one shared selector with every math/rand global call and lock as a scheduling point; each concurrent result must equal the same call executed alone before and after; all schedules of 2 tasks (bounded preemptions for 3-4 tasks) are enumerated for 12 small scenarios, larger ones sampled; containment (family, inside a configured subnet of the generation, port flag) is asserted on every result over generated configurations incl. /32, /128, leading-zero networks, overlaps, zero weights, and an offset sweep of small subnets",
+   text="purity under schedules: 2-32 concurrent Select / SelectPhantom calls on one shared selector with every math/rand global call and lock as a scheduling point; each concurrent result must equal the same call executed alone before and after, and every returned value is read again after the later selections (a result must not change after it was returned); all schedules of 2 tasks (bounded preemptions for 3-4 tasks) are enumerated for 12 small scenarios, larger ones sampled; containment (family, inside a configured subnet of the generation, port flag) is asserted on every result over generated configurations incl. /32, /128, leading-zero networks, overlaps, zero weights, and an offset sweep of small subnets",
    note="containment is input sampling and labelled so; the draw inside mroth/weightedrand's Chooser.Pick is not a yield point (third-party module), so a wrong group pick under interleaving is under-approximated; an IPv4 network written ::ffff:a.b.c.d/(96+n) is read as the IPv4 network a.b.c.d/n",
    tech=TECH + " (lock-level / rand-level cooperative scheduler, schedule enumeration + seeded search, serial-result oracle)"),
  "C16": dict(cat="exploration", ref="5 C16",
-   text="four populations: (c) byte stream - every script of <= 3 messages (thorough 4) over {0,1,2,max-1,max,heartbeat} x cyclic read sizes x error variant x pace below the real hbConn/hbClient + SCTPConn is enumerated (1.46 M cases quick); (d) flow control and heartbeat watchdog under scripted drain rates, jitter and loss; (b) routing: 2-8 (thorough 32) dial/accept pairs on one real Listener with real pion DTLS handshakes over simulated datagram links, distinct / equal / unregistered secrets, cancellations at tape-chosen points, the listener's locks as scheduling points; (a) handshake <=> same secret incl. certificate derivation across midnight and datagram faults",
+   text="four populations: (c) byte stream - every script of <= 3 messages (thorough 4) over {0,1,2,max-1,max,heartbeat} x cyclic read sizes x error variant x pace below the real hbConn/hbClient + SCTPConn is enumerated (1.46 M cases quick); (d) flow control (one writer, and 2-6 writers on one connection as scheduler tasks: bounded buffer, no starvation once the network drains) and heartbeat watchdog under scripted drain rates, jitter and loss; (b) routing: 2-8 (thorough 32) dial/accept pairs on one real Listener with real pion DTLS handshakes over simulated datagram links, distinct / equal / unregistered secrets, cancellations at tape-chosen points, the listener's locks as scheduling points; (a) handshake <=> same secret incl. certificate derivation across midnight and datagram faults",
    note="trusted: pion dtls/sctp internals run uninstrumented inside the bubble (their goroutines become tasks only when they enter the listener's locks); the datagram simnet lives in the harness; 'same secret => completes' is only demanded when no datagram fault fired",
    tech=TECH + " (script enumeration below the real stream stack, lock-level scheduling of the listener, simulated datagram network with loss / duplication / delay, simulated clock for the watchdog)"),
  "C17": dict(cat="fault_enumeration", ref="5 C17",
@@ -51,7 +51,7 @@ CHECKS = {
    note="trusted: measurement-history and recency models; golang-lru is not instrumented (its eviction callback runs after the library releases its own lock at the pinned version - checked at start-up, with a suppress path otherwise); ages within 1 ms above a lifetime are don't-cares; cache hits are never demanded; an auxiliary free-running stress run under the race detector (capacity oracle at quiescent ends, statistical) covers switches inside critical sections, which the lock-level scheduler does not produce",
    tech=TECH + " (simulated clock, history enumeration, lock-level scheduler with bounded-preemption enumeration, reference models)"),
  "C19": dict(cat="exploration", ref="5 C19",
-   text="generated TOML configurations (every optional key set / unset / zero / malformed, list entries incl. malformed CIDRs and regular expressions, the shipped app_config.toml verbatim) and subnet files through the real ParseConfig / NewRegistrationManager / liveness New; for accepted ones: three epochs of every stats module's PrintAndReset with and without traffic, a sweep, and reload sequences of length <= 4 mixing valid, malformed and unreadable files; oracles: no panic, every list entry enforced (dropped entries detected by probing the intended range), reload differential against a fresh manager (failed part unchanged, successful part replaced); single reloads and one-key alternatives on the shipped config are enumerated; the scenario runs as one scheduler task (leaked locks are deadlock verdicts), station goroutine panics are verdicts, client library versions vary in traffic, the GeoIP database must be usable after every reload",
+   text="generated TOML configurations (every optional key set / unset / zero / malformed, list entries incl. malformed CIDRs and regular expressions, the shipped app_config.toml verbatim) and subnet files through the real ParseConfig / NewRegistrationManager / liveness New; for accepted ones: three epochs of every stats module's PrintAndReset with and without traffic, a sweep, and reload sequences of length <= 4 mixing valid, malformed and unreadable files; oracles: no panic, every list entry enforced (dropped entries detected by probing the intended range), reload differential against a fresh manager (failed part unchanged, successful part replaced); single reloads and one-key alternatives on the shipped config are enumerated; the scenario runs as one scheduler task (leaked locks are deadlock verdicts), station goroutine panics are verdicts, client library versions vary in traffic, the GeoIP database must be usable after every reload; a quarter of the registrations is still in flight in the ingest workers while the statistics printers run (lock operations of both are scheduling points); list pools contain bare IPv4 and IPv6 addresses",
    note="the SIGHUP glue of cmd/application/main.go is re-implemented in 7 harness lines; connManager's stats module and GeoIP databases are not exercised; a panic or exit during the INITIAL load counts as a failed load",
    tech=TECH + " (reload / file-fault sequences under the simulated clock, differential probes, panic monitor)"),
  "C20": dict(cat="fault_enumeration", ref="5 C20", engine="ptracefi",
